@@ -667,7 +667,17 @@ pub fn prepare_aggregation(
     planner: &mut QueryPlanner,
 ) -> Result<(TypedBufferRef, Type), QueryError> {
     let nullable = plan.is_nullable() || plan.is_null();
-    let decoded_type = plan_type.decoded;
+    let mut decoded_type = plan_type.decoded;
+    let mut plan_type = plan_type;
+    if plan.is_null() && matches!(aggregator, Aggregator::SumI64 | Aggregator::MaxI64 | Aggregator::MinI64) {
+        // The expression is entirely NULL in this partition (column absent or all NULL), so it has no type of its own.
+        // Aggregate it as a nullable integer: the partial result is NULL either way, but a float partial result would
+        // turn the exact integer aggregates of all other partitions into (lossy) floats when they are merged.
+        // Merging an integer NULL with float partial results is supported (casts I64_NULL to F64_NULL).
+        plan = planner.cast(plan, EncodingType::NullableI64);
+        decoded_type = BasicType::NullableInteger;
+        plan_type = Type::unencoded(BasicType::NullableInteger);
+    }
     Ok(match aggregator {
         Aggregator::Count => {
             let plan = if plan.tag == EncodingType::ScalarI64 {
